@@ -1,11 +1,11 @@
-SPECIFICATION Spec
+SPECIFICATION SpecFast
 CONSTANTS
   M <- MCM
   SfSids <- MCSfSids
-  ReqSeq <- MCReqSeq
+  ReqSeq <- MCReqSeqSmall
   BFamily <- BFamAll
   Export = FALSE
-  CheckE4 = TRUE
+  CheckE4 = FALSE
   Dev_S20_RuleOffRaises = FALSE
   Dev_S20b_UnofferedSessionAsserts = FALSE
 INVARIANT TypeOK
